@@ -341,6 +341,69 @@ static void run_stream(const uint8_t *data, size_t n, size_t chunk, int seg, uns
 	j_int("calls", calls);
 }
 
+
+/* the same through a decode_queue: bytes arrive with mpt_qpush, answers come
+ * from mpt_queue_recv (which shifts consumed data away and makes room by
+ * itself while the queue has free space); mpt_queue_peek is called in between */
+static void run_queue(const uint8_t *data, size_t n, size_t chunk, size_t grant, int maxres)
+{
+	MPT_STRUCT(decode_queue) dq = MPT_DECODE_QUEUE_INIT;
+	size_t fed = 0;
+	int nres = 0, calls = 0, idle = 1;
+	const char *last = "more";
+
+	dq._dec = dfn;
+	j_arr_open("res");
+	while (1) {
+		int r;
+		if (idle) {
+			size_t k = chunk ? chunk : n;
+			if (fed >= n) break;
+			if (k > n - fed) k = n - fed;
+			if (dq.data.max - dq.data.len < k) mpt_queue_prepare(&dq.data, k);
+			if (mpt_qpush(&dq.data, k, data + fed) < 0) { last = "qpush"; break; }
+			fed += k;
+			idle = 0;
+		}
+		(void) mpt_queue_peek(&dq, 0, 0);
+		r = mpt_queue_recv(&dq);
+		++calls;
+		if (r > 0) {
+			size_t mp = dq._state.data.pos, ml = (size_t) dq._state.data.msg;
+			uint8_t *tmp = (uint8_t *) calloc(ml + 1, 1);
+			j_item_obj_open();
+			j_str("r", "msg");
+			if (ml && mpt_queue_get(&dq.data, mp, ml, tmp) < 0) { ml = 0; j_int("outside", 1); }
+			j_bytes("m", tmp, ml);
+			j_close();
+			free(tmp);
+			last = "msg";
+			if (++nres >= maxres) break;
+		} else if (r == 0 || r == MPT_ERROR(MissingData)) {
+			last = "more";
+			idle = 1;
+		} else if (r == MPT_ERROR(MissingBuffer)) {
+			last = "nobuf";
+			mpt_queue_prepare(&dq.data, (dq.data.max - dq.data.len) + grant);
+		} else {
+			j_item_obj_open();
+			j_str("r", "err");
+			j_int("code", r);
+			j_close();
+			last = "err";
+			break;
+		}
+		if (calls > 40000) { last = "spin"; break; }
+	}
+	j_arr_close();
+	j_str("last", last);
+	j_int("fed", (long long) fed);
+	j_int("wr_outside", 0);
+	j_int("guards", 1);
+	j_int("calls", calls);
+	free(dq.data.base);
+}
+
 /* ------------------------------------------------------------------ */
 /* encoder side                                                        */
 static char ekind[16], epath[16];
@@ -639,6 +702,17 @@ static void step_inner(struct cmd *c)
 		else run_stream(d, n, (size_t) drv_uint(c, "chunk", 0), (int) drv_int(c, "seg", 0),
 		                (unsigned) drv_uint(c, "mis", 0), (size_t) drv_uint(c, "grant", 8),
 		                (int) drv_int(c, "maxres", 64));
+		drv_dbg();
+		drv_end();
+		free(d);
+	}
+	else if (!strcmp(a, "qrun")) {
+		size_t n; uint8_t *d = drv_bytes(c, "data", &n);
+		dec_setup(drv_raw(c, "kind"), (int) drv_int(c, "m", 0), 0);
+		drv_begin(c);
+		if (!dfn) j_str("ret", "nocodec");
+		else run_queue(d, n, (size_t) drv_uint(c, "chunk", 0), (size_t) drv_uint(c, "grant", 8),
+		               (int) drv_int(c, "maxres", 64));
 		drv_dbg();
 		drv_end();
 		free(d);
